@@ -144,6 +144,14 @@ func RandScen(rng *rand.Rand, tier string, idx int) *Scen {
 	sc.SizesB = RandSizes(rng, cntB, huge)
 	sc.GapsA = RandGaps(rng, cntA, 20*time.Second)
 	sc.GapsB = RandGaps(rng, cntB, 20*time.Second)
+	// slow consumers: the receiving application pauses now and then, so
+	// the receive buffer (N slots) fills up
+	if rng.Intn(3) == 0 {
+		sc.RecvGapsA = RandGaps(rng, cntA, 5*time.Second)
+	}
+	if rng.Intn(3) == 0 {
+		sc.RecvGapsB = RandGaps(rng, cntB, 5*time.Second)
+	}
 	sc.FaultC2S = RandFault(rng, resend)
 	sc.FaultS2C = RandFault(rng, resend)
 	sc.Horizon = 3 * time.Hour
